@@ -1,10 +1,12 @@
 (* The statement order of Licensing.get_advanced_tokenizer, as generated from the source on this
-   run, satisfies the hypothesis of the thread-safety theorem. *)
-Require Import Model.Base Model.Threads Proofs.Threads Gen.ThreadProg.
+   run, satisfies the hypothesis of the thread-safety theorem: every statement that publishes or returns the thread's own
+   tokenizer stands where that tokenizer is complete, and none changes it once it is published (safe_order; the body of a
+   "with self.<lock>:" block is read as if it stood alone - the criterion does not rely on a lock). *)
+Require Import Model.Base Model.Threads Proofs.Threads Proofs.ThreadsGen Gen.ThreadProg.
 
-Lemma thread_prog_safe : shape_safe thread_prog = true.
-Proof. reflexivity. Qed.
+Lemma thread_prog_safe : safe_order thread_prog = true.
+Proof. vm_compute. reflexivity. Qed.
 
 Theorem threads_safe_repo : forall n sched th,
   In th (threads (run_sched thread_prog (start n) sched)) -> result th = None \/ result th = Some true.
-Proof. exact (threads_safe thread_prog thread_prog_safe). Qed.
+Proof. exact (threads_safe_order thread_prog thread_prog_safe). Qed.
